@@ -127,7 +127,40 @@ func spelled(v any, rename map[string]string) any {
 		}
 		return out
 	}
+	if str, ok := v.(string); ok {
+		if t, ok := spelledTexts[str]; ok {
+			return t
+		}
+	}
 	return v
+}
+
+// texts the specification names by ASCII ids (SANY strings are ASCII)
+var spelledTexts = map[string]string{
+	"t_desc":  "café au lait — naïve, 日本語 and a\ttab",
+	"t_pat":   "^[\u0400-\u04ff]+é$",
+	"t_cafe":  "café noir",
+	"t_naive": "naïve",
+	"t_plain": "plain",
+}
+
+// escapedNonASCII rewrites JSON text so that every non-ASCII character is a \uXXXX escape (surrogate pairs beyond
+// the BMP): the same document for a JSON parser, and for a YAML parser reading it as flow style with double-quoted
+// scalars.
+func escapedNonASCII(text string) string {
+	var b strings.Builder
+	for _, r := range text {
+		switch {
+		case r < 0x80:
+			b.WriteRune(r)
+		case r > 0xffff:
+			r -= 0x10000
+			fmt.Fprintf(&b, "\\u%04x\\u%04x", 0xd800+(r>>10), 0xdc00+(r&0x3ff))
+		default:
+			fmt.Fprintf(&b, "\\u%04x", r)
+		}
+	}
+	return b.String()
 }
 
 var reQuotedKey = regexp.MustCompile(`"(1|2|true|null|1\.5)":`)
@@ -205,6 +238,10 @@ func RunSpellings(tier, rule string) int {
 		add("json "+sw, "root.json", string(jb), len(v.Sw) == 0)
 		add("yaml-block "+sw, "root.yaml", block, false)
 		add("yaml-flow "+sw, "root.yaml", flow, false)
+		if esc := escapedNonASCII(flow); esc != flow { // non-ASCII text written as \uXXXX escapes
+			add("json, non-ASCII as escapes "+sw, "root.json", escapedNonASCII(string(jb)), false)
+			add("yaml-flow, non-ASCII as escapes "+sw, "root.yaml", esc, false)
+		}
 		if len(v.Sw) <= 1 { // the same files reached through an extension-less name (--resolve-extension)
 			for _, x := range []struct{ desc, name, text string }{{"json via extension-less name ", "root.json", string(jb)}, {"yaml via extension-less name ", "root.yaml", block}} {
 				nv := &eqVariant{Desc: x.desc + sw, files: map[string]string{x.name: x.text}, entry: []string{"root"}, cfg: gcfg}
